@@ -323,18 +323,20 @@ def preload_shim():
 def plan(tier):
     """(scenario, visible, bound, parts)"""
     if tier == "quick":
+        # the costliest units first (run_pool hands units out in list order): S9 pays for filling the cache once per
+        # worker, S7 compiles two kernels per execution with the whole code generator traced
         return [
-            ("S1-same-warm", "core+weakref", 1, 2),
-            ("S3w-diff-warm", "core+weakref", 1, 2),
+            ("S9-full-cache-hit-vs-insert", "hot", 1, 3),
+            ("S7-sparse-dense-cold", "codegen", 1, 24),
             ("S1-same-warm", "hot", 2, 12),
             ("S3w-diff-warm", "hot", 2, 12),
             ("S6-eval-vs-drop", "core+weakref", 2, 8),
             ("S2-same-cold", "core", 1, 6),
             ("S3-diff-cold", "core", 1, 6),
             ("S4-cffi-cold", "core", 1, 6),
-            ("S7-sparse-dense-cold", "codegen", 1, 16),
+            ("S1-same-warm", "core+weakref", 1, 2),
+            ("S3w-diff-warm", "core+weakref", 1, 2),
             ("S8-operators-warm", "core", 1, 4),
-            ("S9-full-cache-hit-vs-insert", "hot", 1, 8),
         ]
     # sized to finish in about an hour on 16 idle cores: bound 2 where an execution is cheap (warm cache) or the visible
     # set is small (cold cache: the three files that hold the shared state), bound 1 with wide visible sets elsewhere
@@ -367,7 +369,7 @@ def run(tier, seed):
     for sc, vis, bound, parts in plan(tier):
         for part in range(parts):
             units.append({"scenario": sc, "visible": vis, "bound": bound, "part": part, "parts": parts})
-    units = rotate(units, seed)
+    # no rotation by seed here: the order is by cost, and every unit is explored completely whatever the order
     print(f"[C14] {len(units)} work units over {len(plan(tier))} (scenario, visible set, bound) configurations", flush=True)
     executions = points = preempted = 0
     outcomes = 0
@@ -391,6 +393,8 @@ def run(tier, seed):
                                  "backend": SCENARIOS[sc][2], "visible": unit["visible"], "bound": unit["bound"],
                                  "choices": choices}})
             continue
+        cfg = f"{unit['scenario']}/{unit['visible']}/bound{unit['bound']}"
+        run.counters[f"{cfg} CPU seconds (all parts)"] += round(res["wall"])
         executions += res["executions"]
         points += res["points"]
         preempted += res["preempted"]
